@@ -429,12 +429,17 @@ def mt_src(prog):
              "                        let admin_addr = if admin.is_empty() { None } else if admin == \"<empty>\" { Some(String::new()) } else { Some(mt::sender(&admin).to_string()) };\n"
              "                        let (pr, docj) = match val {\n")
     for val in (0, 1):
-        o.append("                            %d => { %slet mut b = code.instantiate(%s);\n"
+        # (an option set several times has the value set last, Multitest.tla: for val = 1 every option is first set to a decoy value)
+        decoy = ("                                let decoy_f = mt::funds(3); b = b.with_label(\"decoy\").with_admin(Some(\"decoy\")).with_funds(&decoy_f);\n"
+                 "                                if label.is_empty() { b = b.with_label(\"Contract\"); }\n"
+                 "                                if admin_addr.is_none() { b = b.with_admin(None::<&str>); }\n"
+                 "                                if !salt.is_empty() { b = b.with_salt(&b\"decoy\"[..]); }\n") if val == 1 else ""
+        o.append("                            %d => { %slet mut b = code.instantiate(%s);\n%s"
                  "                                if !label.is_empty() { b = b.with_label(&label); }\n"
                  "                                if let Some(a) = &admin_addr { b = b.with_admin(Some(a.as_str())); }\n"
                  "                                b = b.with_funds(&f);\n"
                  "                                if !salt.is_empty() { b = b.with_salt(salt.as_bytes()); }\n"
-                 "                                (b.call(&sender), %s) }\n" % (val, lets(inst, val), args(inst), doc(inst, val)))
+                 "                                (b.call(&sender), %s) }\n" % (val, lets(inst, val), args(inst), decoy, doc(inst, val)))
     o.append("                            _ => unreachable!(),\n                        };\n"
              "                        let rr: Result<sylvia::cw_multi_test::AppResponse, sylvia::anyhow::Error> = if salt.is_empty() {\n"
              "                            raw.instantiate_contract(*raw_codes.last().unwrap(), sender.clone(), &mt::json_value(docj), &f, s(\"rawlabel\"), admin_addr.clone())\n"
@@ -581,13 +586,17 @@ def program_src(prog):
         for m in p["methods"]:
             o.append("    " + handler_src(prog, p, m, False).replace("\n    ", "\n        ").rstrip(" "))
         o.append("    }\n\n")
-    o.append("    #[sylvia::entry_points%s]\n    #[sylvia::contract]\n    #[sv::error(ContractError)]\n" % ("(generics<GenVal>)" if generic else ""))
-    for p in ifaces:
-        o.append("    #[sv::messages(%s as %s)]\n" % (imod(p), p["id"].capitalize()))
-    for a in own.get("mattrs", []):        # attributes forwarded to the message type of a kind
-        o.append("    #[sv::msg_attr(%s, %s)]\n" % (a["kind"], a["text"]))
-    for k in prog.get("overrides", []):
-        o.append("    #[sv::override_entry_point(%s=ov::%s(%s))]\n" % (k, k, "sylvia::cw_std::Reply" if k == "reply" else "verif_rrt::OvMsg"))
+    o.append("    #[sylvia::entry_points%s]\n    #[sylvia::contract]\n" % ("(generics<GenVal>)" if generic else ""))
+    a_err = ["    #[sv::error(ContractError)]\n"]
+    a_msgs = ["    #[sv::messages(%s as %s)]\n" % (imod(p), p["id"].capitalize()) for p in ifaces]
+    a_mat = ["    #[sv::msg_attr(%s, %s)]\n" % (a["kind"], a["text"]) for a in own.get("mattrs", [])]        # forwarded to the message type of a kind
+    a_ovs = ["    #[sv::override_entry_point(%s=ov::%s(%s))]\n" % (k, k, "sylvia::cw_std::Reply" if k == "reply" else "verif_rrt::OvMsg")
+             for k in prog.get("overrides", [])]
+    if prog.get("family") == "spread":
+        # the same declarations, not grouped by kind: the interfaces are declared with other attributes between them
+        o.extend(a_msgs[:1] + ["    #[allow(dead_code)]\n"] + a_err + a_ovs + a_msgs[1:] + a_mat)
+    else:
+        o.extend(a_err + a_msgs + a_mat + a_ovs)
     o.append("    impl%s Ctr%s%s {\n        pub const fn new() -> Self {\n            %s\n        }\n" % (
         gen_hdr, gen_hdr, gen_where, "Ctr { tag: 0, _p: std::marker::PhantomData }" if generic else "Ctr { tag: 0 }"))
     for m in own["methods"]:
